@@ -84,6 +84,32 @@ def canJoin (S : Schema) (doc : Node) (pos : Nat) : Option (Option Bool) :=
   | some r => canJoinR S r
   | none => none
 
+/-- what `can_join` does not look at (and `join_point` neither): the join itself goes through `check_join`, which asks
+    whether the *types* of the two nodes have compatible content (`after.type.compatible_content(before.type)`: the
+    same type, or the two start states share an edge), and needs an element node after the position.
+    `joinable` only asked `before.can_append(after)`.  Read at a position where `can_join` approved
+    (a child boundary with an element node before it). -/
+def joinGuardR (S : Schema) (r : RPos) : Bool :=
+  match r.parent.kids[r.index r.depth - 1]?, r.parent.kids[r.index r.depth]? with
+  | some a, some (.elem tb _ _ _) => S.compatibleContent tb (S.tyOf a)
+  | _, _ => false
+
+def joinGuard (S : Schema) (doc : Node) (pos : Nat) : Bool :=
+  match doc.resolve pos with
+  | some r => joinGuardR S r
+  | none => true
+
+/-- `TextStable` (Props/C01.lean) as a check over the automaton tables: from a state reached by a text child, a
+    further text child stays there -/
+def textStableC (S : Schema) : Bool :=
+  (List.range S.nodes.size).all (fun t => (List.range (S.dfa t).size).all (fun q =>
+    match (S.dfa t).matchType q S.textTy with
+    | some q1 =>
+      (match (S.dfa t).matchType q1 S.textTy with
+       | some q2 => q2 == q1
+       | none => true)
+    | none => true))
+
 /-- which nodes the `join_point` loop looks at at depth `d`: `before`, `after`, and the index the final
     `can_replace` uses; `none` = `node_before` / `node_after` raise -/
 def joinSides (r : RPos) (dir : Int) (d : Nat) : Option (Option Node × Option Node × Nat) :=
